@@ -314,6 +314,10 @@ def gen_pct(ctx, n):
     for _ in range(n):
         ln = rng.randint(1, 14)
         chunks = U.rand_chunks_1d(rng, ln, zero_p=0.15)
+        if rng.random() < 0.1:      # long array, few large chunks
+            ln = rng.randint(15, 60)
+            cuts = sorted(rng.sample(range(1, ln), rng.randint(0, 3)))
+            chunks = tuple(b - a for a, b in zip([0] + cuts, cuts + [ln]))
         method = rng.choice(METHODS)
         kind = rng.random()
         if kind < 0.55:
